@@ -349,6 +349,56 @@ class CallMixin:
             return '((void)0)'
         raise LoweringError(f'std::{name} form not modelled in {self.cur["name"]}')
 
+    def oss_put(self, stream, item):
+        """`stream << item` on the output-string-stream model: the item is appended (or the formatting state changed) in a prelude
+        statement and the stream lvalue is the value of the expression"""
+        if self.cond_depth:
+            raise LoweringError('stream insertion in a conditional operand')
+        while stream.get('kind') == 'ImplicitCastExpr' and stream.get('castKind') in ('DerivedToBase', 'UncheckedDerivedToBase', 'NoOp'):
+            stream = stream['inner'][0]     # ostringstream used as its ostream base: the same model object
+        o = self.ex(stream)
+        x = item
+        while x.get('kind') in ('ImplicitCastExpr', 'ParenExpr', 'MaterializeTemporaryExpr', 'ExprWithCleanups', 'CXXBindTemporaryExpr') and len(x.get('inner', [])) == 1:
+            x = x['inner'][0]
+        if x.get('kind') == 'DeclRefExpr' and x.get('referencedDecl', {}).get('kind') == 'FunctionDecl':
+            m = x['referencedDecl'].get('name')
+            flag = {'hex': f'({o}).base = 16', 'dec': f'({o}).base = 10', 'uppercase': f'({o}).upper = 1', 'nouppercase': f'({o}).upper = 0'}.get(m)
+            if flag is None:
+                raise LoweringError(f'stream manipulator std::{m} is not modelled')
+            self.pre.append(flag + ';')
+            return o
+        if x.get('kind') == 'CallExpr':
+            cal = x['inner'][0]
+            while cal.get('kind') in ('ImplicitCastExpr', 'ParenExpr'):
+                cal = cal['inner'][0]
+            m = cal.get('referencedDecl', {}).get('name') if cal.get('kind') == 'DeclRefExpr' else None
+            if m == 'setw':
+                self.pre.append(f'({o}).width = (uint64_t)({self.value_of(x["inner"][1])});')
+                return o
+            if m == 'setfill':
+                self.pre.append(f'({o}).fill = (char)({self.value_of(x["inner"][1])});')
+                return o
+            if m in ('put_time', 'setprecision', 'quoted'):
+                raise LoweringError(f'stream manipulator std::{m} is not modelled')
+        t = self.tyof(item).strip_ref()
+        fam = self.family(t)
+        v = self.value_of(item)
+        a = addr(o)
+        if fam in ('string', 'strview'):
+            tv = self.hoist_pure(t, v)
+            self.pre.append(f'cxx_oss_put_n({a}, {tv}.p, {tv}.n);')
+        elif t.kind == 'ptr' or t.kind == 'carr':
+            self.pre.append(f'cxx_oss_put_cstr({a}, {v});')
+        elif t.kind == 'prim' and t.name in ('char',):
+            self.pre.append(f'cxx_oss_put_char({a}, {v});')
+        elif t.kind == 'prim' and self.ctype(t) in ('int', 'int64_t', 'int16_t', 'long long', 'int32_t'):
+            self.pre.append(f'cxx_oss_put_i64({a}, (int64_t)({v}));')
+        elif t.kind == 'prim' and self.ctype(t) in ('uint32_t', 'uint64_t', 'uint16_t', 'unsigned long long'):
+            self.pre.append(f'cxx_oss_put_u64({a}, (uint64_t)({v}), 0);')
+        else:
+            raise LoweringError(f'stream insertion of {t!r} is not modelled')
+        return o
+
     def strip_to_lambda(self, a):
         while a.get('kind') != 'LambdaExpr':
             inner = a.get('inner')
@@ -538,6 +588,8 @@ class CallMixin:
                 self.helpers.add('str')
                 if m == 'append' and len(args) == 1 and self.family(self.tyof(args[0])) == 'string':
                     return f'str_append({addr(obj)}, {self.value_of(args[0])})'
+                if m == 'append' and len(args) == 1 and self.tyof(args[0]).strip_ref().kind in ('ptr', 'carr'):
+                    return f'str_append_cstr({addr(obj)}, {self.value_of(args[0])})'
                 if m == 'append' and len(args) == 2 and self.tyof(args[0]).kind == 'prim':
                     return f'str_append_fill({addr(obj)}, {A(0)}, {A(1)})'
                 if m == 'substr':
@@ -559,6 +611,10 @@ class CallMixin:
                 if m == 'starts_with' and self.tyof(args[0]).kind == 'ptr':
                     o = self.hoist_pure(bt, obj)
                     return f'(cxx_rfind0_cstr({o}.p, {o}.n, {A(0)}) == 0)'
+        if fam == 'oss':
+            if m == 'str' and not args:
+                self.helpers.add('str')
+                return f'str_clone(({obj}).buf)'
         if fam == 'atomic':
             # std::atomic<T> under sequential semantics (the lowering drops concurrency; C36 is not applicable)
             if m == 'load':
@@ -669,6 +725,8 @@ class CallMixin:
         args = n['inner'][1:]
         t0 = self.tyof(args[0])
         f0 = self.family(t0)
+        if op == '<<' and f0 == 'oss':
+            return self.oss_put(args[0], args[1])
         if rd['id'] in self.ix.by_id and self.ix.by_id[rd['id']].get('kind') in ('CXXMethodDecl', 'FunctionDecl'):
             cid = self.canon(rd['id'])
             decl = self.ix.by_id[cid]
